@@ -59,6 +59,7 @@ def static_ops():
             ops.append(('batch', e, pair))
         ops.append(('batch', e, ('m0', 'zz')))
         ops.append(('batch', e, ('m%d' % e,)))          # a batch of exactly one element is still a batch (answered with an array)
+    ops.append(('callc', 0, 'm0'))                      # the very same request text every time (container arguments the callbacks consume)
     ops.append(('call0', 0, 'm0'))                      # request id 0
     ops.append(('notify', 0, 'm0'))
     return ops
@@ -108,8 +109,9 @@ def ref_apply(state, calls, op, n, passthrough):
         if not p[2]:
             lst.append(p)
         cleanup(e)
-        cl.setdefault((e, m), []).append(args)
         pn, pk, _ = p
+        # a callback consumes the containers among its arguments (the recording stub holds the same objects, so it shows them as the callback left them)
+        cl.setdefault((e, m), []).append(consumed(args) if pk == 'callback' else args)
         if pk == 'result':
             return ('result', 'r%d' % pn)
         if pk == 'error':
@@ -148,9 +150,11 @@ def ref_apply(state, calls, op, n, passthrough):
         if kind == 'notify' and passthrough:
             return st, cl, ('notified',)          # the real transport answers a notification with nothing
         return st, cl, ('passthrough',) if passthrough else ('refused',)
-    if kind in ('call', 'call0', 'notify'):
+    if kind in ('call', 'call0', 'notify', 'callc'):
         m = op[2]
         args = ('kw', {'a': n}) if (kind == 'call' and op[3] == 'named') else ('pos', [n])
+        if kind == 'callc':
+            args = ('pos', [[1, 2], 'k'])
         if kind == 'call' and op[3] == 'named-id':
             args = ('kw', {'id': n, 'callback': 'c', 'method': 'x', 'endpoint': 'y', 'request': 1})
         a = answer(e, m, args)
@@ -210,9 +214,21 @@ def make_raising_cb(n):
     return cb
 
 
+def consumed(args):
+    how, v = args
+    if how == 'pos':
+        return (how, [x + ['consumed'] if isinstance(x, list) else x for x in v])
+    return (how, {k: x + ['consumed'] if isinstance(x, list) else x for k, x in v.items()})
+
+
 def make_cb(n):
     def cb(*args, **kwargs):
-        return ['cb%d' % n, ['kw', kwargs] if kwargs else ['pos', list(args)]]
+        import copy
+        out = ['cb%d' % n, ['kw', copy.deepcopy(kwargs)] if kwargs else ['pos', copy.deepcopy(list(args))]]
+        for a in list(args) + list(kwargs.values()):
+            if isinstance(a, list):
+                a.append('consumed')          # the callback works on the arguments it was given, in place
+        return out
     return cb
 
 
@@ -314,10 +330,12 @@ def real_apply(kind, mocker, cls, op, n):
             return ('result', resp.result)
         return resp
 
-    if k in ('call', 'call0'):
+    if k in ('call', 'call0', 'callc'):
         m = op[2]
         rid = 0 if k == 'call0' else 7
         params = {'a': n} if (k == 'call' and op[3] == 'named') else [n]
+        if k == 'callc':
+            params = [[1, 2], 'k']
         if k == 'call' and op[3] == 'named-id':
             params = {'id': n, 'callback': 'c', 'method': 'x', 'endpoint': 'y', 'request': 1}
         r = drive(lambda: client.send(Request(m, params, id=rid)))
@@ -582,6 +600,53 @@ def run_backends(ctx):
             rec.counters['backend passthrough cases'] += 1
 
 
+def scripted_histories():
+    """longer histories than the BFS reaches, of one shape: a patches, c calls, removal of the method / the endpoint / every patch by one-shot
+    consumption, b new patches - then (look-ahead) a full rotation"""
+    flags = [f for k in (1, 2, 3) for f in itertools.product((False, True), repeat=k)]
+    for fa in flags:
+        for c in range(0, 5):
+            for how in ('remove', 'remove_ep'):
+                for fb in flags:
+                    h = [('add', 0, 'm0', 'result', once) for once in fa]
+                    live = list(fa)
+                    for _ in range(c):
+                        if not live:
+                            break
+                        h.append(('call', 0, 'm0', 'pos'))
+                        o = live.pop(0)
+                        if not o:
+                            live.append(o)
+                    if not live:
+                        continue          # nothing left to remove
+                    h.append((how, 0, 'm0') if how == 'remove' else (how, 0))
+                    h += [('add', 0, 'm0', 'callback' if i == 1 else 'result', once) for i, once in enumerate(fb)]
+                    yield tuple(h)
+
+
+def run_scripted(ctx):
+    W = ctx.workers
+    items = sorted(set(scripted_histories()))
+    if ctx.tier == 'quick':
+        items = [h for h in items if len(h) <= 9]
+
+    def work(wid):
+        rec = Recorder()
+        for i in range(wid, len(items), W):
+            h = items[i]
+            for passthrough in (False, True):
+                st, canon, bad = replay_history(h, passthrough, rec, check_last_only=False)
+                rec.traces += 1
+                if bad:
+                    rec.violation(classify(h, bad), dict(passthrough=passthrough, history=[list(o) for o in h], transport=bad[1], step=bad[2], part='scripted'),
+                                  expected=bad[3], observed=bad[4])
+        return rec, []
+    for rec, _ in fork_map(work, W):
+        ctx.rec.merge(rec)
+    ctx.rec.counters['scripted histories'] += len(items)
+    ctx.rec.states += len(items)
+
+
 def run(ctx):
     ctx.rule = ('E2: level-synchronous BFS over histories of <= %d operations (quick: 3 with passthrough on) over {add(endpoint, method, result|error|callback, once on/off) '
                 '(16 variants), replace at each valid index, remove(endpoint, method), remove(endpoint), single call positional / named, '
@@ -589,13 +654,15 @@ def run(ctx):
                 'unpatched method} on 2 endpoints x 2 methods, passthrough off and on, the real PjRpcMocker patching a real sync and a '
                 'real async client in lock-step with the reference model. canonical state = reference patch table (patch numbers '
                 'renamed by first appearance) + shape of the mocker\'s own table (extra discriminator); non-trivial = every explored '
-                'transition (answer and recorded calls compared)' % ctx.pick(4, 5))
+                'transition (answer and recorded calls compared). + every history of the shape <1..3 patches, 0..4 calls, remove(method) / remove(endpoint), '
+                '1..3 new patches, a full rotation> (up to 15 operations), every step compared' % ctx.pick(4, 5))
     ctx.assumptions += ['merging is sound: the future of the mocker depends only on the patch table; the call log only grows and is compared at every step',
                         'an element of a batch whose method has no patch left is answered -32601 (the endpoint decision is taken on arrival)']
     capped = False
     for passthrough in (False, True):
         n, c = bfs(ctx, passthrough)
         capped = capped or c
+    run_scripted(ctx)
     run_backends(ctx)
     ctx.rec.nontrivial_n = ctx.rec.traces
     ctx.rec.evaluations = ctx.rec.traces
